@@ -94,6 +94,7 @@ private:
       change = false;
       ++iterations;
       for (unsigned i = 0, e = order.size(); i < e; ++i) {
+        CRAB_VERIF_TICK();
         auto const &n = order[i];
         auto in = (i == 0 ? m_analysis.entry() : killgen_domain_t::bottom());
         for (auto const &p : m_cfg.prev_nodes(n))
@@ -120,6 +121,7 @@ private:
       change = false;
       ++iterations;
       for (unsigned i = 0, e = order.size(); i < e; ++i) {
+        CRAB_VERIF_TICK();
         auto const &n = order[i];
         auto out = (i == 0 ? m_analysis.entry() : killgen_domain_t::bottom());
         for (auto const &p : m_cfg.next_nodes(n))
